@@ -11,6 +11,7 @@ import (
 	"path/filepath"
 	"sort"
 	"strings"
+	"time"
 
 	"github.com/dcaiafa/lox/verif/internal/pipe"
 )
@@ -25,9 +26,31 @@ type Result struct {
 	Stderr   string
 	BuildErr string // non-empty: go build failed (compiler output)
 	RunErr   string
+	// Stopped: the program was killed by the safety net (why); its output is partial.
+	Stopped string
 }
 
 // Run builds one program out of pkgs and mainSrc and runs it. race adds -race.
+// RunLimit and MemLimit bound a compiled program (see Run).
+var (
+	RunLimit       = 15 * time.Minute
+	MemLimit int64 = 6 << 30
+)
+
+func rssOf(pid int) int64 {
+	b, err := os.ReadFile(fmt.Sprintf("/proc/%d/statm", pid))
+	if err != nil {
+		return 0
+	}
+	f := strings.Fields(string(b))
+	if len(f) < 2 {
+		return 0
+	}
+	var pages int64
+	fmt.Sscan(f[1], &pages)
+	return pages * int64(os.Getpagesize())
+}
+
 func Run(tag string, pkgs []Pkg, mainSrc string, race bool, env []string) *Result {
 	root, err := os.MkdirTemp(pipe.ScratchRoot(), "loxmc.st3."+tag+".")
 	if err != nil {
@@ -76,8 +99,41 @@ func Run(tag string, pkgs []Pkg, mainSrc string, race bool, env []string) *Resul
 	run.Env = append(os.Environ(), env...)
 	var so, se bytes.Buffer
 	run.Stdout, run.Stderr = &so, &se
-	if err := run.Run(); err != nil {
+	// Safety net, not an oracle: a compiled program that runs away (generated
+	// code that never terminates, or that allocates without end) is stopped
+	// after RunLimit of wall clock or at MemLimit of resident memory; the caller
+	// sees Stopped and must not read a verdict out of it.
+	if err := run.Start(); err != nil {
 		res.RunErr = fmt.Sprintf("%v", err)
+		return res
+	}
+	done := make(chan error, 1)
+	go func() { done <- run.Wait() }()
+	deadline := time.After(RunLimit)
+	tick := time.NewTicker(time.Second)
+	defer tick.Stop()
+	var werr error
+wait:
+	for {
+		select {
+		case werr = <-done:
+			break wait
+		case <-deadline:
+			res.Stopped = fmt.Sprintf("still running after %v", RunLimit)
+			run.Process.Kill()
+			werr = <-done
+			break wait
+		case <-tick.C:
+			if rss := rssOf(run.Process.Pid); rss > MemLimit {
+				res.Stopped = fmt.Sprintf("resident memory reached %d MB", rss>>20)
+				run.Process.Kill()
+				werr = <-done
+				break wait
+			}
+		}
+	}
+	if werr != nil {
+		res.RunErr = fmt.Sprintf("%v", werr)
 	}
 	res.Stdout = so.Bytes()
 	res.Stderr = strings.ReplaceAll(se.String(), root+"/", "")
